@@ -640,10 +640,173 @@ def rule_quant(repo, tier):
     return res
 
 
+@guarded
+def rule_quat(repo, tier):
+    """Exact polynomial verification of the branch formulas of mat2SO3.  For R = R(w, x, y, z), the rotation matrix of a unit quaternion (entries
+    quadratic in its components), every candidate vector must be a positive multiple of the quaternion itself: candidate_k = 4 c_k (w, x, y, z) and its
+    pivot t_k = 4 c_k^2 for one component c_k, so that candidate_k / (2 sqrt(t_k)) = +-(w, x, y, z).  The sixteen candidate entries and four pivots are read
+    from the source, evaluated as polynomials in (w, x, y, z) (exact rational arithmetic, reduced modulo w^2 + x^2 + y^2 + z^2 = 1) and compared; the
+    order of the components inside a candidate is taken from the final index_select that turns it into the stored (x, y, z, w) layout."""
+    from .. import series
+    from ..limits import Evaluator
+    from ..series import Unsupported, Inconclusive, INF
+    res = RuleResult('C11.QUAT', 'mat2SO3: each of the four candidate vectors is 4 c (w, x, y, z) and its pivot 4 c^2 for one quaternion component c, as polynomial '
+                     'identities in the components of a unit quaternion (all 16 entries and 4 pivots), with the component order fixed by the final index_select', floor=4)
+    f = repo.func(CV, 'mat2SO3')
+    order = ['w', 'x', 'y', 'z']
+    ring, gens, rings = series.tower(order)
+    W, X, Y, Z = (gens[v] for v in order)
+    mul, add, sub, sc = ring.mul, ring.add, ring.sub, ring.scale
+    sq = lambda a: mul(a, a)
+    two = lambda a: sc(a, 2)
+    R = [[sub(add(sq(W), sq(X)), add(sq(Y), sq(Z))), two(sub(mul(X, Y), mul(W, Z))), two(add(mul(X, Z), mul(W, Y)))],
+         [two(add(mul(X, Y), mul(W, Z))), sub(add(sq(W), sq(Y)), add(sq(X), sq(Z))), two(sub(mul(Y, Z), mul(W, X)))],
+         [two(sub(mul(X, Z), mul(W, Y))), two(add(mul(Y, Z), mul(W, X))), sub(add(sq(W), sq(Z)), add(sq(X), sq(Y)))]]
+    S_ = sub(ring.one(), add(sq(X), add(sq(Y), sq(Z))))          # w^2 on the unit sphere
+
+    def reduce(p):
+        out = ring.zero()
+        for e, c in p.c.items():
+            term = series.S({e % 2: c}, INF)
+            for _ in range(e // 2):
+                term = mul(term, S_)
+            out = add(out, term)
+        return out
+
+    def is_zero(p):
+        p = reduce(p)
+        return ring.known_zero(p) or all(ring.base.known_zero(v) or _allzero(ring.base, v) for v in p.c.values())
+
+    def _allzero(rg, v):
+        if isinstance(rg, series.QRing):
+            return v == 0
+        return all(_allzero(rg.base, c) for c in v.c.values())
+
+    pm = f.pos_params[0]
+    vm = {}
+    for i in range(3):
+        for j in range(3):
+            for form, (a, b) in (('%s[..., %d, %d]', (i, j)), ('%s.mT[..., %d, %d]', (j, i)), ('%s.transpose(-1, -2)[..., %d, %d]', (j, i)),
+                                 ('%s.transpose(-2, -1)[..., %d, %d]', (j, i)), ('%s.mH[..., %d, %d]', (j, i))):
+                vm[dump(ast.parse(form % (pm, i, j), mode='eval').body)] = R[a][b]
+    inl = inline_straight(f.node)
+    env = inl.env
+
+    class _Ev(Evaluator):
+        # B[..., i, j] for any expression B that is the input matrix, possibly sliced to [..., :3, :3] and transposed an odd / even number of times
+        def ev(self, e):
+            if isinstance(e, ast.Subscript) and isinstance(e.slice, ast.Tuple) and len(e.slice.elts) == 3 and isinstance(e.slice.elts[0], ast.Constant) \
+                    and e.slice.elts[0].value is Ellipsis and all(isinstance(x, ast.Constant) and isinstance(x.value, int) for x in e.slice.elts[1:]):
+                i, j = e.slice.elts[1].value, e.slice.elts[2].value
+                b, tr = e.value, False
+                while True:
+                    if isinstance(b, ast.Attribute) and b.attr in ('mT', 'mH'):
+                        b, tr = b.value, not tr
+                    elif isinstance(b, ast.Call) and isinstance(b.func, ast.Attribute) and b.func.attr in ('transpose', 'swapaxes') and \
+                            sorted(src(a_).replace(' ', '') for a_ in b.args) == ['-1', '-2']:
+                        b, tr = b.func.value, not tr
+                    elif isinstance(b, ast.Subscript) and src(b.slice).replace(' ', '') in ('...,:3,:3', '...,0:3,0:3'):
+                        b = b.value
+                    elif isinstance(b, ast.Call) and isinstance(b.func, ast.Attribute) and b.func.attr in ('clone', 'contiguous', 'detach', 'to', 'type_as'):
+                        b = b.func.value
+                    else:
+                        break
+                if 0 <= i < 3 and 0 <= j < 3:
+                    return R[j][i] if tr else R[i][j]
+            return super().ev(e)
+
+    def ev(e):
+        return _Ev(ring, vm, ('atom', ('none',))).ev(e)
+    # candidates: names bound to torch.stack([4 entries], -1); pivots: what divides them
+    cands = {}
+    for name, v in env.items():
+        if isinstance(v, ast.Call) and dotted(v.func) == 'torch.stack' and v.args and isinstance(v.args[0], (ast.List, ast.Tuple)) and len(v.args[0].elts) == 4:
+            cands[name] = v.args[0].elts
+    if len(cands) < 4:
+        raise AnalysisError('C11.QUAT: %d four-entry candidates found in mat2SO3' % len(cands))
+    # internal component order from the final index_select
+    perm = None
+    for c in paths.calls_in(f.node):
+        if isinstance(c.func, ast.Attribute) and c.func.attr == 'index_select' and len(c.args) == 2:
+            for x in ast.walk(c.args[1]):
+                if isinstance(x, ast.List) and len(x.elts) == 4:
+                    try:
+                        perm = [int(ast.literal_eval(y)) for y in x.elts]
+                    except ValueError:
+                        perm = None
+    comp_of_slot = {}
+    if perm is not None and sorted(perm) == [0, 1, 2, 3]:
+        for j, name in enumerate(['x', 'y', 'z', 'w']):           # stored layout (x, y, z, w)
+            comp_of_slot[perm[j]] = name
+    elif perm is None:
+        comp_of_slot = {0: 'x', 1: 'y', 2: 'z', 3: 'w'}
+    else:
+        raise AnalysisError('C11.QUAT: final component permutation not understood')
+    vec = [gens[comp_of_slot[i]] for i in range(4)]
+    # pivot of each candidate: the t whose mask multiplies it in the normaliser; paired by the shared mask name in the raw source
+    pair = {}
+    defs = {}
+    for n in ast.walk(f.node):
+        if isinstance(n, ast.Assign) and len(n.targets) == 1 and isinstance(n.targets[0], ast.Name):
+            defs.setdefault(n.targets[0].id, []).append(n.value)
+    prods = [(n.left, n.right) for n in ast.walk(f.node) if isinstance(n, ast.BinOp) and isinstance(n.op, ast.Mult) and
+             isinstance(n.left, ast.Name) and isinstance(n.right, ast.Name)]
+    by_mask = {}
+    for a_, b_ in prods:
+        for u, m in ((a_.id, b_.id), (b_.id, a_.id)):
+            if m.startswith('mask') or 'mask' in m:
+                by_mask.setdefault(m, []).append(u)
+    for m, users in by_mask.items():
+        qs = [u for u in users if u in cands]
+        ts = [u for u in users if u not in cands]
+        if len(qs) == 1 and len(ts) == 1:
+            pair[qs[0]] = ts[0]
+    n_ok = 0
+    for qn, elts in sorted(cands.items()):
+        try:
+            comps = [ev(inl.value(e)) if not isinstance(e, ast.Name) else ev(env.get(e.id, e)) for e in elts]
+            tn = pair.get(qn)
+            tv = None
+            if tn is not None:
+                te = env.get(tn)
+                # t_rep = t.unsqueeze(-1).repeat(...) : strip shape-only calls
+                while isinstance(te, ast.Call) and isinstance(te.func, ast.Attribute) and te.func.attr in ('unsqueeze', 'repeat', 'expand', 'expand_as', 'view', 'reshape'):
+                    te = te.func.value
+                tv = ev(te)
+        except (Unsupported, Inconclusive) as ex:
+            res.inst({'function': f.fq, 'candidate': qn, 'decided': False, 'reason': str(ex)}, qn)
+            continue
+        hit = None
+        for cname in order:
+            c4 = sc(gens[cname], 4)
+            if all(is_zero(sub(comps[i], mul(c4, vec[i]))) for i in range(4)):
+                hit = cname
+        piv_ok = hit is not None and tv is not None and is_zero(sub(tv, mul(sc(gens[hit], 4), gens[hit])))
+        res.inst({'function': f.fq, 'candidate': qn, 'is 4 c (w,x,y,z) for c': hit, 'pivot': tn, 'pivot is 4 c^2': piv_ok,
+                  'component order (slots)': [comp_of_slot[i] for i in range(4)]}, qn)
+        if hit is None:
+            # name the offending entries: try each c and report the best match
+            best = None
+            for cname in order:
+                c4 = sc(gens[cname], 4)
+                bad = [i for i in range(4) if not is_zero(sub(comps[i], mul(c4, vec[i])))]
+                if best is None or len(bad) < len(best[1]):
+                    best = (cname, bad)
+            res.add(Finding('C11.QUAT', f, 'candidate `%s` of mat2SO3 is not a multiple of the quaternion: with c = %s the entries %s (`%s`) differ from 4 c * %s - on the rotations '
+                            'that select this branch the returned quaternion has a wrong component or sign (e.g. the inverse rotation)'
+                            % (qn, best[0], best[1], ', '.join(src(elts[i])[:40] for i in best[1]), [comp_of_slot[i] for i in best[1]]), construct='candidate|' + qn))
+        elif not piv_ok:
+            res.add(Finding('C11.QUAT', f, 'candidate `%s` is 4 %s (w, x, y, z) but the pivot it is normalised with (%s) is not 4 %s^2: the result is not a unit quaternion'
+                            % (qn, hit, tn, hit), construct='pivot|' + qn))
+        else:
+            n_ok += 1
+    return res
+
+
 def _rules_core(repo, tier):
     from ..effects import rule_pure
     t = [(CV, q) for q in ('mat2SO3', 'mat2SE3', 'mat2Sim3', 'mat2RxSO3', 'from_matrix', 'euler2SO3', 'quat2unit')]
-    return rule_mp_pair(repo) + [rule_fwd(repo), rule_raise(repo), rule_disp(repo), rule_lt(repo), rule_gimbal(repo, tier), rule_degree(repo, tier), rule_tcol(repo, tier), rule_pivots(repo, tier), rule_quant(repo, tier),
+    return rule_mp_pair(repo) + [rule_fwd(repo), rule_raise(repo), rule_disp(repo), rule_lt(repo), rule_gimbal(repo, tier), rule_degree(repo, tier), rule_tcol(repo, tier), rule_pivots(repo, tier), rule_quant(repo, tier), rule_quat(repo, tier),
                                  rule_pure(repo, 'C11.PURE', 'the converters do not write into the matrix / angles they are given (also not on the rejecting '
                                            'path): converting the same tensor twice gives the same element', t)]
 
